@@ -16,7 +16,8 @@ var templates = []templateVariable{
 
 type envVarTmpl struct{}
 
-var envVarTmplMatcher = regexp.MustCompile(`^\$\{\{\s*env:\s*(\w+)\s*\|?\s*(.*\S)?\s*\}\}$`)
+// A default value is only recognized after a `|`: `${{env:NAME}}` or `${{env:NAME | default}}`.
+var envVarTmplMatcher = regexp.MustCompile(`^\$\{\{\s*env:\s*(\w+)\s*(?:\|\s*(.*\S)\s*)?\}\}$`)
 
 func (envVarTmpl) MatchAndResolve(in string) (out string, ok bool, err error) {
 	out = in
